@@ -601,7 +601,7 @@ func c8altKeyText(r *gen.Rng) func(v val.Value) string {
 			if bool(x) {
 				return gen.Pick(r, []string{"1", "yes"})
 			}
-			return gen.Pick(r, []string{"0", "np"})
+			return gen.Pick(r, []string{"0", "no"})
 		case val.Enum:
 			return fmt.Sprint(x.Id)
 		}
